@@ -271,6 +271,13 @@ def gen_cases(ck):
             cases.append(build(64, 64, [("r", DATA + 5, 130), ("w", DATA + 9, 100, 3), ("r", DATA, 200)],
                                pend=[p], retry=None if retry == 3 else retry))
     cases.append(build(40, 40, [("r", DATA + 5, 300), ("w", DATA + 9, 200, 3)], pend=[0, 1, 2, 0, 2]))
+    # pending acknowledges (16 bytes) on the shortest data acknowledges: whole reads of 1..3 bytes and tail chunks of
+    # 1..3 bytes, single-byte writes
+    for p in (1, 2):
+        cases.append(build(64, 64, [("r", DATA + 5, 1), ("r", DATA + 6, 2), ("r", DATA + 7, 3), ("r", DATA, 52 + 1),
+                                    ("r", DATA, 104 + 2), ("r", DATA + 1, 52 + 3), ("w", DATA + 9, 1, 3), ("r", DATA + 8, 4)],
+                           pend=[p]))
+    cases.append(build(24, 16, [("r", DATA + 5, 3), ("w", DATA + 9, 2, 3)], pend=[2, 1, 0]))
     # mixed random histories
     for _ in range(12 if quick else 200):
         mc = rng.choice([24, 25, 37, 64, 100, 512, 4096])
